@@ -5,7 +5,7 @@
 # quick checks against it (VERIF_REPO). Prints one line per check.
 set -u
 patch=$(readlink -f "$1"); shift
-SR=/dev/shm/seed_repo; SV=/dev/shm/seed_verif
+TAG=${SEED_TAG:-}; SR=/dev/shm/seed_repo$TAG; SV=/dev/shm/seed_verif$TAG
 git -C /repo worktree remove --force $SR 2>/dev/null; rm -rf $SR
 git -C /repo worktree add -q --detach $SR HEAD || exit 2
 git -C /verif worktree remove --force $SV 2>/dev/null; rm -rf $SV
